@@ -121,7 +121,7 @@ impl Property for C02 {
         }
     }
     fn required_labels(&self, _tier: Tier) -> Vec<&'static str> {
-        vec!["nontrivial", "ancestors>30", "same-id-two-kinds", "rec-without-terms", "link-on-term-and-ancestor"]
+        vec!["nontrivial", "ancestors>30", "parents>30", "records>255", "same-id-two-kinds", "rec-without-terms", "link-on-term-and-ancestor"]
     }
     fn run_generated(&self, tier: Tier, seed: u64, n: u64, stats: &mut Stats) -> Option<(Value, Failure)> {
         let max = if tier == Tier::Quick { 34 } else { 90 };
